@@ -42,6 +42,8 @@ import itertools
 import json
 import logging
 import multiprocessing
+import os
+import signal
 import socket
 import time
 from enum import Enum
@@ -297,12 +299,20 @@ class Scheduler:
         if proc is None:
             return
 
-        proc.kill()
+        self._signal_process_group(proc, signal.SIGKILL)
         await asyncio.sleep(1)
         if proc.returncode is None:
             await asyncio.sleep(10)
-            proc.terminate()
+            self._signal_process_group(proc, signal.SIGTERM)
         await proc.wait()
+
+    def _signal_process_group(self, proc, sig):
+        # The script runs as the leader of its own session (see try_handle_task),
+        # so signalling the group also reaches the children it has spawned.
+        try:
+            os.killpg(proc.pid, sig)
+        except ProcessLookupError:
+            pass
 
     async def try_handle_task(self, tid, name, script, working_dir, time_limit, deps):
         proc = None
@@ -327,6 +337,7 @@ class Scheduler:
                 stdout=asyncio.subprocess.PIPE,
                 stderr=asyncio.subprocess.PIPE,
                 cwd=working_dir,
+                start_new_session=True,
             )
             try:
                 logger.debug("task starting")
